@@ -595,8 +595,8 @@ func (e *Env) HeldOpenOracle() []Finding {
 			}
 			for _, a := range c.Args {
 				argInsts(a, func(x *kit.Inst) {
-					if !x.Disp || x.Given || len(x.Closes) == 0 {
-						return
+					if !x.Disp || len(x.Closes) == 0 {
+						return // (a registered instance VALUE the container closes counts as a dependency, too)
 					}
 					ox := e.ownerOf(x)
 					if oy == "#prov" && ox != "#prov" {
